@@ -84,6 +84,9 @@ impl ExtensionsMap {
 
         let mut st = iter.next();
         while let Some(subtag) = st {
+            if subtag.len() > 1 {
+                return Err(ParserError::InvalidExtension);
+            }
             match subtag.first().map(|b| ExtensionType::from_byte(*b)) {
                 Some(Ok(ExtensionType::Unicode)) => {
                     result.unicode = UnicodeExtensionList::try_from_iter(iter)?;
